@@ -380,6 +380,7 @@ class C17(Check):
         "disk_fault_fired", "same_process_second_save",
         "colliding_outputs_in_one_command", "target_is_symlink",
         "target_appeared_during_command", "output_path_from_config",
+        "target_is_empty_file",
     )
 
     def setup_worker(self):
@@ -570,7 +571,7 @@ class C17(Check):
             p = 0.45 if exists is None else (1.0 if exists else 0.0)
             if rng.random() < p:
                 pre[c] = rng.choice(["random", "random", "keep", "random",
-                                     "keep", "symlink"])
+                                     "keep", "symlink", "empty"])
         if exists and not pre and cands:
             pre[cands[0]] = "random"
         op["pre"] = pre
@@ -827,6 +828,11 @@ class C17(Check):
                         continue
                     blob = bytes(prng.getrandbits(8)
                                  for _ in range(prng.randint(1, 64)))
+                    if how == "empty":
+                        # a placeholder (touch, mktemp) or the output another
+                        # job has just opened
+                        blob = b""
+                        res.stats["probe.target_is_empty_file"] += 1
                     if how == "symlink":
                         # the target is a link to an existing file elsewhere
                         os.makedirs("store", exist_ok=True)
@@ -860,7 +866,8 @@ class C17(Check):
                     late = None
                     if op.get("late"):
                         late = dict(op["late"], data=bytes(
-                            prng.getrandbits(8) for _ in range(40)))
+                            prng.getrandbits(8)
+                            for _ in range(prng.choice([40, 40, 0]))))
                     events, exc = sb.run(fn, op.get("answers", ()),
                                          op.get("fault"), late=late)
                 plt.close("all")
